@@ -1,4 +1,4 @@
-import Vinegar.Model.Conc
+import Vinegar.Model.ConcComponents
 /-
 C19 — shared components are linearizable under every thread interleaving (lock-granularity model).
 
@@ -11,7 +11,18 @@ it):
                     from the initial state gives exactly the recorded results and the final state;
 * `linearizable_run` hence the per-thread results pass the linearizability checker that the
                     harness also evaluates on the results of the real threads;
+* `linearizable_run_probe` … and the state the run ends in answers every later sequence of calls the
+                    way the final state of that same sequential order does (`linearizableP`);
+* `linearizableP_sound` conversely, whatever the checker accepts is explained by a sequential order;
 * `no_deadlock`     while some operation is pending some step is enabled (one lock, never nested).
+
+Instances for the components whose public methods are one critical section of one lock, each over
+the EXISTING model of the component's sequential behaviour: `linearizable_lru`,
+`linearizable_store` (`DataStore`, model of C15), `linearizable_textfile` (`TextFileSource` with a file
+that is rewritten during the run, model of C14); `linearizable_yaml` instantiates the same theorem at the
+step function of `YamlTargetSource` (model of C12), whose `get_data` is NOT a single critical section — see
+the caution there. The driver evaluates the same checkers (`linearizableP lruStep / storeStep / tfStep /
+yamlStep`) on the results of the real threads.
 -/
 namespace Vinegar.C19
 open Vinegar.Conc
@@ -348,6 +359,162 @@ theorem linearizable_run [DecidableEq R] (step : S → Op → S × R) (s0 : S) (
   have := linearizable_of_valid step programs.length _ s0 _ hv (fun e he => hn e (by simpa using he))
   simpa using this
 
+/-! ### the probe of the final state -/
+
+/-- calls made one after the other from a state return … what they return -/
+theorem probeOK_seqRun [DecidableEq R] (step : S → Op → S × R) :
+    ∀ (q : List Op) (s : S), probeOK step s (q.zip (seqRun step s q).2) = true
+  | [], s => by simp [probeOK]
+  | op :: ops, s => by
+    simp only [seqRun, List.zip_cons_cons, probeOK, decide_true, Bool.true_and]
+    exact probeOK_seqRun step ops _
+
+/-- a valid sequential log whose final state answers the probe is found by the search -/
+theorem linearizableP_of_valid [DecidableEq R] (step : S → Op → S × R) (n : Nat) (probe : List (Op × R)) :
+    ∀ (L : List (Nat × Op × R)) (s s' : S), validFrom step s L s' → (∀ e ∈ L, e.1 < n) →
+      probeOK step s' probe = true → linearizableP step L.length s (obsFrom n L) probe = true := by
+  intro L
+  induction L with
+  | nil =>
+    intro s s' hv _ hp
+    simp only [validFrom] at hv
+    subst hv
+    simp [linearizableP, obsFrom_nil_all_empty, hp]
+  | cons e L ih =>
+    intro s s' hv hn hp
+    obtain ⟨h1, h2⟩ := hv
+    have he : e.1 < n := hn e (by simp)
+    simp only [List.length_cons, linearizableP, Bool.or_eq_true]
+    right
+    rw [List.any_eq_true]
+    refine ⟨e.1, by simp [obsFrom_length, he], ?_⟩
+    rw [obsFrom_get n (e :: L) e.1 he]
+    simp only [List.filter_cons, beq_self_eq_true, if_true, List.map_cons, Bool.and_eq_true, decide_eq_true_eq]
+    refine ⟨h1, ?_⟩
+    have := ih _ s' h2 (fun x hx => hn x (by simp [hx])) hp
+    rw [show removeHead (obsFrom n (e :: L)) e.1 = obsFrom n L from removeHead_obsFrom n e L he]
+    exact this
+
+/-- **linearizability including the state left behind**: for every component given by a sequential
+`step`, every number of threads, every program per thread, EVERY schedule and every sequence `q` of
+calls made afterwards: the results the threads obtained together with the answers to `q` in the state
+the run ended in pass the probe-aware checker — some sequential order of the threads' calls returns
+the same results AND ends in a state that answers `q` the same way -/
+theorem linearizable_run_probe [DecidableEq R] (step : S → Op → S × R) (s0 : S) (programs : List (List Op))
+    (sched : List Nat) (q : List Op) :
+    linearizableP step (run step (Config.init s0 programs) sched).log.length s0
+      (obsFrom programs.length (run step (Config.init s0 programs) sched).log.reverse)
+      (q.zip (seqRun step (run step (Config.init s0 programs) sched).state q).2) = true := by
+  have hv := log_sequential step s0 programs sched
+  have hn := (log_threads step programs.length (Config.init s0 programs : Config S Op R) sched
+    (by simp [Config.init]) (by simp [Config.init])).2
+  have := linearizableP_of_valid step programs.length _ _ s0 _ hv (fun e he => hn e (by simpa using he))
+    (probeOK_seqRun step q _)
+  simpa using this
+
+/-- the probe-aware checker refines the plain one -/
+theorem linearizableP_linearizable [DecidableEq R] (step : S → Op → S × R) (probe : List (Op × R)) :
+    ∀ (f : Nat) (s : S) (obs : List (List (Op × R))), linearizableP step f s obs probe = true →
+      linearizable step f s obs = true := by
+  intro f
+  induction f with
+  | zero =>
+    intro s obs h
+    simp only [linearizableP, Bool.and_eq_true] at h
+    simpa [linearizable] using h.1
+  | succ f ih =>
+    intro s obs h
+    simp only [linearizableP, Bool.or_eq_true, Bool.and_eq_true] at h
+    simp only [linearizable, Bool.or_eq_true]
+    rcases h with h | h
+    · exact Or.inl h.1
+    · right
+      rw [List.any_eq_true] at h ⊢
+      obtain ⟨i, hi, hm⟩ := h
+      refine ⟨i, hi, ?_⟩
+      split at hm
+      · rename_i op r tl heq
+        simp only [Bool.and_eq_true] at hm ⊢
+        exact ⟨hm.1, ih _ _ hm.2⟩
+      · cases hm
+
+theorem all_empty_eq_obsFrom_nil (obs : List (List (Op × R))) (h : obs.all (·.isEmpty) = true) :
+    obsFrom obs.length ([] : List (Nat × Op × R)) = obs := by
+  apply List.ext_getElem?
+  intro j
+  by_cases hj : j < obs.length
+  · rw [obsFrom_get _ _ j hj]
+    have hx : obs[j]? = some obs[j] := List.getElem?_eq_getElem hj
+    have := List.all_eq_true.mp h obs[j] (List.getElem_mem hj)
+    rw [hx]
+    simp only [List.filter_nil, List.map_nil]
+    rw [List.isEmpty_iff] at this
+    rw [this]
+  · have h1 : (obsFrom obs.length ([] : List (Nat × Op × R)))[j]? = none := by
+      rw [List.getElem?_eq_none_iff, obsFrom_length]; omega
+    have h2 : obs[j]? = none := by rw [List.getElem?_eq_none_iff]; omega
+    rw [h1, h2]
+
+theorem obsFrom_cons_of_removeHead (obs : List (List (Op × R))) (i : Nat) (op : Op) (r : R) (tl : List (Op × R))
+    (L : List (Nat × Op × R)) (hi : obs[i]? = some ((op, r) :: tl))
+    (hL : obsFrom obs.length L = removeHead obs i) : obsFrom obs.length ((i, op, r) :: L) = obs := by
+  have hlt : i < obs.length := by
+    rcases List.getElem?_eq_some_iff.mp hi with ⟨h', _⟩; exact h'
+  apply List.ext_getElem?
+  intro j
+  by_cases hj : j < obs.length
+  · rw [obsFrom_get _ _ j hj]
+    have hLj : (obsFrom obs.length L)[j]? = (removeHead obs i)[j]? := by rw [hL]
+    rw [obsFrom_get _ _ j hj] at hLj
+    by_cases hji : j = i
+    · subst hji
+      unfold removeHead at hLj
+      rw [getElem?_set_self' _ _ _ _ hi, hi] at hLj
+      simp only [Option.getD_some, List.tail_cons, Option.some.injEq] at hLj
+      rw [hi]
+      simp only [opOf, resOf] at hLj
+      simp [opOf, resOf, hLj]
+    · unfold removeHead at hLj
+      rw [List.getElem?_set_ne (Ne.symm hji)] at hLj
+      rw [← hLj]
+      have : (i == j) = false := by simp [Ne.symm hji]
+      simp [this]
+  · have h1 : (obsFrom obs.length ((i, op, r) :: L))[j]? = none := by
+      rw [List.getElem?_eq_none_iff, obsFrom_length]; omega
+    have h2 : obs[j]? = none := by rw [List.getElem?_eq_none_iff]; omega
+    rw [h1, h2]
+
+/-- **the checker is sound**: whatever observation it accepts IS explained by a sequential order —
+there is a chronological log `L` (who executed what with which result) that is a valid sequential
+execution from `s`, whose per-thread view is exactly the observation, and whose final state answers the
+probe. (Together with `linearizable_run_probe`: the checker accepts exactly the linearizable
+observations and every run of the lock-granularity model is one.) -/
+theorem linearizableP_sound [DecidableEq R] (step : S → Op → S × R) (probe : List (Op × R)) :
+    ∀ (f : Nat) (s : S) (obs : List (List (Op × R))), linearizableP step f s obs probe = true →
+      ∃ (L : List (Nat × Op × R)) (s' : S), validFrom step s L s' ∧ obsFrom obs.length L = obs ∧
+        probeOK step s' probe = true := by
+  intro f
+  induction f with
+  | zero =>
+    intro s obs h
+    simp only [linearizableP, Bool.and_eq_true] at h
+    exact ⟨[], s, rfl, all_empty_eq_obsFrom_nil obs h.1, h.2⟩
+  | succ f ih =>
+    intro s obs h
+    simp only [linearizableP, Bool.or_eq_true, Bool.and_eq_true] at h
+    rcases h with h | h
+    · exact ⟨[], s, rfl, all_empty_eq_obsFrom_nil obs h.1, h.2⟩
+    · rw [List.any_eq_true] at h
+      obtain ⟨i, _, hm⟩ := h
+      split at hm
+      · rename_i op r tl heq
+        simp only [Bool.and_eq_true, decide_eq_true_eq] at hm
+        obtain ⟨L, s', hv, ho, hp⟩ := ih _ _ hm.2
+        have hlen : (removeHead obs i).length = obs.length := by simp [removeHead]
+        rw [hlen] at ho
+        exact ⟨(i, op, r) :: L, s', ⟨hm.1, hv⟩, obsFrom_cons_of_removeHead obs i op r tl L heq ho, hp⟩
+      · cases hm
+
 /-- **no deadlock**: one lock, never nested — while any operation is pending or in progress, some
 thread can take a step -/
 theorem no_deadlock (step : S → Op → S × R) (s0 : S) (c : Config S Op R) (hi : Inv step s0 c)
@@ -398,6 +565,64 @@ theorem linearizable_lru (c0 : Lru) (programs : List (List LruOp)) (sched : List
     linearizable lruStep (run lruStep (Config.init c0 programs) sched).log.length c0
       (obsFrom programs.length (run lruStep (Config.init c0 programs) sched).log.reverse) = true :=
   linearizable_run lruStep c0 programs sched
+
+/-- `DataStore` (one connection mutex around every method, `vinegar/utils/sqlite_store.py`) over the
+SQLite model of C15: under every schedule of every number of threads running any programs of
+`set_value / get_value / delete_value / delete_data / get_data / find_systems / list_systems`, the
+results pass the checker together with any calls `q` made afterwards: instance of
+`linearizable_run_probe` at `storeStep` -/
+theorem linearizable_store (strict : Bool) (db0 : Sqlite.Db) (programs : List (List Sqlite.StoreOp))
+    (sched : List Nat) (q : List Sqlite.StoreOp) :
+    linearizableP (storeStep strict) (run (storeStep strict) (Config.init db0 programs) sched).log.length db0
+      (obsFrom programs.length (run (storeStep strict) (Config.init db0 programs) sched).log.reverse)
+      (q.zip (seqRun (storeStep strict) (run (storeStep strict) (Config.init db0 programs) sched).state q).2) = true :=
+  linearizable_run_probe (storeStep strict) db0 programs sched q
+
+/-- `TextFileSource` (`with self._lock:` around `_update_data` + look-up,
+`vinegar/data_source/text_file.py`) over the text-file model of C14, with the file being replaced
+by any of the scenario's states at any point (the rewrite is a program of its own): for every
+configuration, every list of file states, every version functions, under every schedule, the
+results of `get_data` / `find_system` pass the checker together with any calls `q` made afterwards:
+instance of `linearizable_run_probe` at `tfStep` -/
+theorem linearizable_textfile (ver : String → String) (statVer : Option Nat → String) (cfg : TextFile.Cfg)
+    (states : List TextFile.FileState) (w0 : TfWorld) (programs : List (List TfOp)) (sched : List Nat)
+    (q : List TfOp) :
+    linearizableP (tfStep ver statVer cfg states)
+      (run (tfStep ver statVer cfg states) (Config.init w0 programs) sched).log.length w0
+      (obsFrom programs.length (run (tfStep ver statVer cfg states) (Config.init w0 programs) sched).log.reverse)
+      (q.zip (seqRun (tfStep ver statVer cfg states)
+        (run (tfStep ver statVer cfg states) (Config.init w0 programs) sched).state q).2) = true :=
+  linearizable_run_probe (tfStep ver statVer cfg states) w0 programs sched q
+
+/-- the step function at which the driver decides the runs of `YamlTargetSource` (`yamlStep`: `Yaml.getData`
+of C12 + the scenario's change of one file), as an instance of `linearizable_run_probe`. CAUTION about what
+this says of the code: `get_data` of the real source is not one critical section (only its LRU cache is
+lock-wrapped; every call has its own compiler object and the cache item is updated last-writer-wins), so the
+lock-granularity model is an idealisation of this component — the theorem guarantees that the checker
+accepts every execution in which the calls do take effect one at a time, with every cache state such
+executions can leave behind; that the real interleavings inside `get_data` are indistinguishable from those
+is what the enumerated schedules explore. -/
+theorem linearizable_yaml (vf : Yaml.VerFns) (W : Yaml.World) (R : Yaml.Render) (cfg : Yaml.Cfg) (fuel : Nat)
+    (pdv : String) (states : List (List Yaml.Step)) (w0 : YWorld) (programs : List (List YOp)) (sched : List Nat)
+    (q : List YOp) :
+    linearizableP (yamlStep vf W R cfg fuel pdv states)
+      (run (yamlStep vf W R cfg fuel pdv states) (Config.init w0 programs) sched).log.length w0
+      (obsFrom programs.length (run (yamlStep vf W R cfg fuel pdv states) (Config.init w0 programs) sched).log.reverse)
+      (q.zip (seqRun (yamlStep vf W R cfg fuel pdv states)
+        (run (yamlStep vf W R cfg fuel pdv states) (Config.init w0 programs) sched).state q).2) = true :=
+  linearizable_run_probe (yamlStep vf W R cfg fuel pdv states) w0 programs sched q
+
+/-- a call of the text-file instance IS the call of the C14 model on the file as it is now -/
+theorem tfStep_call (ver : String → String) (statVer : Option Nat → String) (cfg : TextFile.Cfg)
+    (states : List TextFile.FileState) (w : TfWorld) (c : TextFile.Call) :
+    tfStep ver statVer cfg states w (.call c) =
+      (⟨w.file, (TextFile.call ver statVer cfg w.file w.src c).1⟩, some (TextFile.call ver statVer cfg w.file w.src c).2) :=
+  rfl
+
+/-- an operation of the store instance IS the step of the C15 model through a store view -/
+theorem storeStep_eq (strict : Bool) (db : Sqlite.Db) (op : Sqlite.StoreOp) :
+    storeStep strict db op = ((Sqlite.step (.store strict op) db).2, (Sqlite.step (.store strict op) db).1) :=
+  rfl
 
 theorem length_filter_le' (l : List (Nat × Nat)) (k : Nat) : (l.filter (·.1 != k)).length ≤ l.length :=
   List.length_filter_le _ _
@@ -467,5 +692,58 @@ example : linearizable lruStep 2 ⟨2, true, []⟩
     [[(LruOp.set 1 10, LruRes.unit)], [(LruOp.get 1, LruRes.value 11)]] = false := by decide
 example : linearizable lruStep 3 ⟨1, true, []⟩
     [[(LruOp.set 1 10, LruRes.unit), (LruOp.len, LruRes.nat 2)], [(LruOp.set 2 20, LruRes.unit)]] = false := by decide
+
+/-! the store: a lost update is rejected, both sequential orders are accepted; the probe pins the final state -/
+section StoreExamples
+open Sqlite
+
+def exA : Sqlite.Str := lit "a"
+def exK : Sqlite.Str := lit "k"
+def exDb : Db := [((exA, exK), lit "1")]
+
+example : linearizableP (storeStep true) 2 exDb
+    [[(StoreOp.setValue exA exK (.int 2), Res.unit)], [(StoreOp.getValue exA exK, Res.text (lit "2"))]]
+    [(StoreOp.getValue exA exK, Res.text (lit "2"))] = true := by decide
+example : linearizableP (storeStep true) 2 exDb
+    [[(StoreOp.setValue exA exK (.int 2), Res.unit)], [(StoreOp.getValue exA exK, Res.text (lit "1"))]]
+    [(StoreOp.getValue exA exK, Res.text (lit "2"))] = true := by decide
+/-- a value nobody wrote -/
+example : linearizableP (storeStep true) 2 exDb
+    [[(StoreOp.setValue exA exK (.int 2), Res.unit)], [(StoreOp.getValue exA exK, Res.text (lit "3"))]]
+    [] = false := by decide
+/-- the threads' results are fine, the state left behind is not (the write got lost) -/
+example : linearizableP (storeStep true) 2 exDb
+    [[(StoreOp.setValue exA exK (.int 2), Res.unit)], [(StoreOp.deleteData exA, Res.unit)]]
+    [(StoreOp.listSystems, Res.systems [exA]), (StoreOp.getValue exA exK, Res.text (lit "1"))] = false := by decide
+end StoreExamples
+
+/-! the text file: a reader that overlaps a rewrite sees the old or the new file, never the tables
+cleared for the reload -/
+section TextFileExamples
+open TextFile
+
+def exVar (n : String) : VarCfg := ⟨.name n, [], false, false⟩
+def exCfg : Cfg := ⟨.warn, .warn, false, true, exVar "host", [("ip", exVar "ip")]⟩
+def exLine (host ip : String) : Line :=
+  ⟨ip ++ ";" ++ host, .groups ⟨[("ip", some ip), ("host", some host)], [none, some ip, some host]⟩⟩
+def exStates : List FileState := [.text 1 [exLine "alpha" "10.0.0.1"], .text 2 [exLine "alpha" "10.0.0.9"]]
+def exVer (s : String) : String := "v" ++ s
+def exStat : Option Nat → String
+  | none => "missing"
+  | some n => String.ofList (List.replicate (n + 1) 's')
+def exData (ip : String) : TfRes :=
+  some (.data (.cons "ip" (.leaf (.str ip)) .nil) (exVer (ip ++ ";alpha")))
+
+example : linearizableP (tfStep exVer exStat exCfg exStates) 2 (TfWorld.start (.text 0 [exLine "alpha" "10.0.0.1"]))
+    [[(TfOp.call (.get "alpha"), exData "10.0.0.1")], [(TfOp.write 1, none)]]
+    [(TfOp.call (.get "alpha"), exData "10.0.0.9")] = true := by decide
+example : linearizableP (tfStep exVer exStat exCfg exStates) 2 (TfWorld.start (.text 0 [exLine "alpha" "10.0.0.1"]))
+    [[(TfOp.call (.get "alpha"), some (.data .nil ""))], [(TfOp.write 1, none)]]
+    [(TfOp.call (.get "alpha"), exData "10.0.0.9")] = false := by decide
+/-- the source kept serving the old file after the rewrite -/
+example : linearizableP (tfStep exVer exStat exCfg exStates) 2 (TfWorld.start (.text 0 [exLine "alpha" "10.0.0.1"]))
+    [[(TfOp.call (.get "alpha"), exData "10.0.0.1")], [(TfOp.write 1, none)]]
+    [(TfOp.call (.get "alpha"), exData "10.0.0.1")] = false := by decide
+end TextFileExamples
 
 end Vinegar.C19
